@@ -180,7 +180,12 @@ func runStored(o *hx.Opts, res *hx.Result, r *hx.Rand) {
 				res.Fail("stored-number:json-roundtrip", input, fmt.Sprintf("MarshalJSON wrote %.60q..., read back as %.60s", js, bd))
 			}
 		}
-		w.add(fmt.Sprintf("KNumStored %s %s %s %s", bigZ(d.M), hx.Z(int64(d.E)), hx.Str(string(js)), optDec(bd)), input, fmt.Sprint(bd != nil))
+		if len(js) <= 300 {
+			w.add(fmt.Sprintf("KNumStored %s %s %s %s", bigZ(d.M), hx.Z(int64(d.E)), hx.Str(string(js)), optDec(bd)), input, fmt.Sprint(bd != nil))
+		} else {
+			// the model's digit generation is too slow under vm_compute for thousands of digits: the reading side only
+			w.add(fmt.Sprintf("KNumUnmarshalBig %s %s", hx.Str(string(js)), optDecMod(bd)), input, fmt.Sprint(bd != nil))
+		}
 
 		// a whole field value
 		res.OracleChecks++
@@ -220,9 +225,17 @@ func runStored(o *hx.Opts, res *hx.Result, r *hx.Rand) {
 			continue // the model speaks about valid JSON number tokens only
 		}
 		res.Eval("unmarshal:"+s, true)
-		w.add(fmt.Sprintf("KNumUnmarshal %s %s", hx.Str(s), optDec(bd)), map[string]any{"kind": "number-token", "text_length": len(s)}, fmt.Sprint(bd != nil))
+		w.add(fmt.Sprintf("KNumUnmarshalBig %s %s", hx.Str(s), optDecMod(bd)), map[string]any{"kind": "number-token", "text_length": len(s)}, fmt.Sprint(bd != nil))
 	}
 	w.flush()
+}
+
+// coefficient modulo 1000000007 (non-negative) and exponent
+func optDecMod(d *dnum) string {
+	if d == nil {
+		return "None"
+	}
+	return fmt.Sprintf("(Some (%s, %s))", bigZ(new(big.Int).Mod(d.M, big.NewInt(1000000007))), hx.Z(int64(d.E)))
 }
 
 func storedThroughEngine(res *hx.Result, env envs.Environment, source *static.StaticSource, d dnum, text string, input map[string]any, maxChars int) {
